@@ -1,4 +1,5 @@
 import PsModel.Model.C16
+import PsModel.Gen.ServiceTbl
 /-!
 # C12 model – `@service` registration by reference counting, and the two life-cycles that drive it
 
@@ -90,10 +91,16 @@ structure Cfg where
   delayTopLevel : Bool    -- file-level definitions are started by GlobalContext.start() (new) / at once (legacy)
   respEnum : Bool         -- `supports_response` reaches Home Assistant as the enum (new: `vol.Coerce`) / as the raw
                           -- string (legacy) – HA's "response required" test is an identity test on the enum
+  skipDup : Bool          -- a name the holder already tracks is not registered again (legacy, since the repair of
+                          -- `trigger_init`: `if srv_name in self.trigger_service: continue`)
 deriving DecidableEq, Repr
 
-def legacyCfg : Cfg := ⟨true, false, false, false, false⟩
-def newCfg : Cfg := ⟨false, true, true, true, true⟩
+/-- the two subsystems as the source has them now: the repair switches are read off the source by the extractor -/
+def legacyCfg : Cfg := ⟨true, false, false, false, false, PsModel.Gen.LEGACY_SKIPS_DUPLICATE⟩
+def newCfg : Cfg := ⟨false, PsModel.Gen.SERVICE_OWNER_IS_EVALUATOR, true, true, true, false⟩
+/-- … and as they were before the `fix:` commits (findings C12-F2, C12-F3) -/
+def legacyPreFix : Cfg := ⟨true, false, false, false, false, false⟩
+def newPreFix : Cfg := ⟨false, true, true, true, true, false⟩
 
 inductive Status | delayed | running
 deriving DecidableEq, Repr
@@ -130,7 +137,9 @@ structure Acq where
 def acquireAll (cfg : Cfg) (o : OwnerName) (gen : Nat) : Reg → List (Svc × Resp) → List Svc → Acq
   | r, [], tr => ⟨r, tr, true⟩
   | r, d :: ds, tr =>
-    if (register r o d.1 ⟨gen, d.2⟩).2 then acquireAll cfg o gen (register r o d.1 ⟨gen, d.2⟩).1 ds (track cfg tr d.1)
+    if cfg.skipDup && tr.contains d.1 then acquireAll cfg o gen r ds tr      -- named twice: registered once
+    else if (register r o d.1 ⟨gen, d.2⟩).2 then
+      acquireAll cfg o gen (register r o d.1 ⟨gen, d.2⟩).1 ds (track cfg tr d.1)
     else ⟨(register r o d.1 ⟨gen, d.2⟩).1, tr, false⟩
 
 /-- registry after an immediate start of all declarations (rolled back on refusal in the new subsystem) -/
@@ -189,13 +198,16 @@ def eventReg (cfg : Cfg) (r : Reg) (h : Holder) : Reg :=
   match h.pending with
   | [] => r
   | d :: _ =>
-    if (register r h.owner d.1 ⟨h.gen, d.2⟩).2 then (register r h.owner d.1 ⟨h.gen, d.2⟩).1
+    if cfg.skipDup && h.tracked.contains d.1 then r
+    else if (register r h.owner d.1 ⟨h.gen, d.2⟩).2 then (register r h.owner d.1 ⟨h.gen, d.2⟩).1
     else releaseList (register r h.owner d.1 ⟨h.gen, d.2⟩).1 h.tracked
 def eventHolder (cfg : Cfg) (r : Reg) (h : Holder) : Option Holder :=
   match h.pending with
   | [] => some h
   | d :: ds =>
-    if (register r h.owner d.1 ⟨h.gen, d.2⟩).2 then
+    if cfg.skipDup && h.tracked.contains d.1 then
+      some { h with pending := ds, status := if ds.isEmpty then .running else .delayed }
+    else if (register r h.owner d.1 ⟨h.gen, d.2⟩).2 then
       some { h with pending := ds, tracked := track cfg h.tracked d.1,
                     status := if ds.isEmpty then .running else .delayed }
     else none
